@@ -117,6 +117,8 @@ pub struct EngineCfg {
     pub more_faults: Vec<(u32, Vec<simos::Fault>)>,
     pub record_calls: bool,
     pub final_reopen_verify: bool,
+    /// every reopen asks for this many times the initial page count (must have no effect)
+    pub reopen_np_factor: usize,
     /// reported oracle ids; a failure of any other oracle ends the run quietly
     pub oracles: Vec<&'static str>,
     pub max_steps: usize,
@@ -145,6 +147,7 @@ impl EngineCfg {
             more_faults: Vec::new(),
             record_calls: false,
             final_reopen_verify: false,
+            reopen_np_factor: 1,
             oracles: vec![],
             max_steps: 20_000,
         }
@@ -445,6 +448,7 @@ pub struct Engine<'a> {
     stop: bool,
     fault_done: bool,
     pub fault_outcome: Option<String>,
+    opened_once: bool,
 }
 
 type Cache<'b, 'tx> = HashMap<Path, Bucket<'b, 'tx>>;
@@ -465,6 +469,7 @@ impl<'a> Engine<'a> {
             stop: false,
             fault_done: false,
             fault_outcome: None,
+            opened_once: false,
         }
     }
 
@@ -519,7 +524,9 @@ impl<'a> Engine<'a> {
 
     fn open(&mut self) -> Option<DB> {
         simos::mark(Marker::OpenCall);
-        let (ps, np, strict, pop) = (self.cfg.pagesize, self.cfg.num_pages, self.cfg.strict, self.cfg.populate);
+        let np = if self.opened_once { self.cfg.num_pages * self.cfg.reopen_np_factor.max(1) } else { self.cfg.num_pages };
+        self.opened_once = true;
+        let (ps, strict, pop) = (self.cfg.pagesize, self.cfg.strict, self.cfg.populate);
         let path = self.cfg.path.clone();
         let r = catch(|| OpenOptions::new().pagesize(ps).num_pages(np).strict_mode(strict).mmap_populate(pop).open(&path));
         match r {
@@ -922,6 +929,8 @@ impl<'a> Engine<'a> {
             }
         }
         let fired_before = simos::fired().len();
+        let blocked_before = simos::growth_blocked();
+        simos::set_growth_block(!readers.is_empty());
         if let Some(f) = &faulted {
             simos::arm(f.1.clone());
         } else if self.cfg.record_calls {
@@ -929,9 +938,17 @@ impl<'a> Engine<'a> {
         }
         let r = catch(move || tx.commit());
         let commit_calls = if faulted.is_some() || self.cfg.record_calls { simos::disarm().1 } else { Vec::new() };
+        simos::set_growth_block(false);
         let ok = matches!(r, Ok(Ok(())));
         simos::mark(Marker::CommitReturn { n, ok });
         let log_ret = simos::log_len();
+        if simos::growth_blocked() > blocked_before {
+            // this commit needed to grow the file while this thread holds a reader: the library
+            // documents that as a self-deadlock, so the run ends here without a verdict
+            self.out.skipped = Some("a commit had to grow the file while a reader was open on the same thread".into());
+            self.stop = true;
+            return;
+        }
         if secondary && simos::fired().len() == fired_before {
             // the second plan did not fire (the first failure changed what this commit writes)
             faulted = None;
@@ -1181,13 +1198,19 @@ impl<'a> Engine<'a> {
         let first = if via_iter { tx.buckets().take(ITER_CAP).find(|(n, _)| n.name() == path[0].as_slice()).map(|(_, b)| b) } else { None };
         let mut cur: Bucket<'b, 'tx> = match first {
             Some(b) => b,
-            None => tx.get_bucket(path[0].clone())?,
+            None => match (via_of(&path[0]), String::from_utf8(path[0].clone())) {
+                (Via::String, Ok(s)) => tx.get_bucket(s)?,
+                _ => tx.get_bucket(path[0].clone())?,
+            },
         };
         for name in &path[1..] {
             let found = if via_iter { cur.buckets().take(ITER_CAP).find(|(n, _)| n.name() == name.as_slice()).map(|(_, b)| b) } else { None };
             let next = match found {
                 Some(b) => b,
-                None => cur.get_bucket(name.clone())?,
+                None => match (via_of(name), String::from_utf8(name.clone())) {
+                    (Via::String, Ok(s)) => cur.get_bucket(s)?,
+                    _ => cur.get_bucket(name.clone())?,
+                },
             };
             cur = next;
         }
@@ -1330,9 +1353,17 @@ impl<'a> Engine<'a> {
             };
             let mut inputs = 0u64;
             // seeks
-            for k in &p {
+            for (pi, k) in p.iter().enumerate() {
                 inputs += 1;
                 let mut c = b.cursor();
+                if pi % 3 == 1 {
+                    // a used (here: partly iterated or exhausted) cursor seeks like a fresh one
+                    for _ in 0..(pi % 7) * 3 {
+                        if c.next().is_none() {
+                            break;
+                        }
+                    }
+                }
                 let found = c.seek(k);
                 let current = c.current().map(|d| data_item(&d));
                 let mut rest = Vec::new();
@@ -1349,7 +1380,7 @@ impl<'a> Engine<'a> {
                     }
                 }
                 let ef = mb.entries.contains_key(k);
-                let st = Step::Seek { path: path.clone(), key: Blob::Raw(k.clone()), take: u32::MAX };
+                let st = Step::Seek { path: path.clone(), key: Blob::Raw(k.clone()), take: u32::MAX, warm: 0 };
                 if !seek_ok(found, &current, &rest, after, ef, &items, k, &st) {
                     return Err((
                         "seek".into(),
@@ -1521,17 +1552,42 @@ fn exec_root<'b, 'tx, 'a: 'tx>(tx: &'b Tx<'tx>, step: &Step, arena: &'a Bump) ->
             K::Slice(s) => tx.create_bucket(s),
             K::Bytes(b) => tx.create_bucket(b),
             K::Str(s) => tx.create_bucket(s),
+            K::String(s) => tx.create_bucket(s),
         })),
         Step::GetOrCreate { name, via, .. } => with_key(name, *via, arena, |k| res_unit(match k {
             K::Vec(v) => tx.get_or_create_bucket(v),
             K::Slice(s) => tx.get_or_create_bucket(s),
             K::Bytes(b) => tx.get_or_create_bucket(b),
             K::Str(s) => tx.get_or_create_bucket(s),
+            K::String(s) => tx.get_or_create_bucket(s),
         })),
-        Step::GetBucket { name, .. } => res_unit(tx.get_bucket(name.bytes())),
-        Step::DeleteBucket { name, .. } => res_unit(tx.delete_bucket(name.bytes())),
+        Step::GetBucket { name, .. } => with_key(name, via_of(&name.bytes()), arena, |k| res_unit(match k {
+            K::Vec(v) => tx.get_bucket(v),
+            K::Slice(s) => tx.get_bucket(s),
+            K::Bytes(b) => tx.get_bucket(b),
+            K::Str(s) => tx.get_bucket(s),
+            K::String(s) => tx.get_bucket(s),
+        })),
+        Step::DeleteBucket { name, .. } => with_key(name, via_of(&name.bytes()), arena, |k| match k {
+            K::Vec(v) => res_unit(tx.delete_bucket(v)),
+            K::Slice(s) => res_unit(tx.delete_bucket(s)),
+            K::Bytes(b) => res_unit(tx.delete_bucket(b)),
+            K::Str(s) => res_unit(tx.delete_bucket(s)),
+            K::String(s) => res_unit(tx.delete_bucket(s)),
+        }),
         Step::Buckets { .. } => Obs::List(tx.buckets().take(ITER_CAP).map(|(n, _)| (n.name().to_vec(), None)).collect()),
         _ => Obs::Skipped,
+    }
+}
+
+/// get_bucket / delete_bucket steps carry no route of their own: derive one from the name, so
+/// that the same bucket is reached under different spellings (Vec, owned String, bytes::Bytes)
+fn via_of(name: &[u8]) -> Via {
+    match name.iter().fold(name.len() as u32, |a, b| a.wrapping_mul(31).wrapping_add(*b as u32)) % 4 {
+        0 => Via::String,
+        1 => Via::Bytes,
+        2 => Via::Str,
+        _ => Via::Vec,
     }
 }
 
@@ -1540,6 +1596,7 @@ enum K<'x> {
     Slice(&'x [u8]),
     Bytes(bytes::Bytes),
     Str(&'x str),
+    String(String),
 }
 
 fn with_key<'a, R>(b: &Blob, via: Via, arena: &'a Bump, f: impl FnOnce(K<'a>) -> R) -> R {
@@ -1551,6 +1608,10 @@ fn with_key<'a, R>(b: &Blob, via: Via, arena: &'a Bump, f: impl FnOnce(K<'a>) ->
         Via::Str => match std::str::from_utf8(&bytes) {
             Ok(s) => f(K::Str(arena.alloc_str(s))),
             Err(_) => f(K::Vec(bytes)),
+        },
+        Via::String => match String::from_utf8(bytes) {
+            Ok(s) => f(K::String(s)),
+            Err(e) => f(K::Vec(e.into_bytes())),
         },
     }
 }
@@ -1567,6 +1628,7 @@ fn exec_bucket<'b, 'tx, 'a: 'tx>(b: &Bucket<'b, 'tx>, step: &Step, arena: &'a Bu
                 }
                 K::Bytes(bb) => b.put(bb, bytes::Bytes::from(v)).map(|o| o.map(|kv| (kv.key().to_vec(), Some(kv.value().to_vec())))),
                 K::Str(s) => b.put(s, v).map(|o| o.map(|kv| (kv.key().to_vec(), Some(kv.value().to_vec())))),
+                K::String(s) => b.put(s, v).map(|o| o.map(|kv| (kv.key().to_vec(), Some(kv.value().to_vec())))),
             });
             match r {
                 Ok(o) => Obs::Item(o),
@@ -1584,15 +1646,29 @@ fn exec_bucket<'b, 'tx, 'a: 'tx>(b: &Bucket<'b, 'tx>, step: &Step, arena: &'a Bu
             K::Slice(s) => b.create_bucket(s),
             K::Bytes(x) => b.create_bucket(x),
             K::Str(s) => b.create_bucket(s),
+            K::String(s) => b.create_bucket(s),
         })),
         Step::GetOrCreate { name, via, .. } => with_key(name, *via, arena, |k| res_unit(match k {
             K::Vec(v) => b.get_or_create_bucket(v),
             K::Slice(s) => b.get_or_create_bucket(s),
             K::Bytes(x) => b.get_or_create_bucket(x),
             K::Str(s) => b.get_or_create_bucket(s),
+            K::String(s) => b.get_or_create_bucket(s),
         })),
-        Step::GetBucket { name, .. } => res_unit(b.get_bucket(name.bytes())),
-        Step::DeleteBucket { name, .. } => res_unit(b.delete_bucket(name.bytes())),
+        Step::GetBucket { name, .. } => with_key(name, via_of(&name.bytes()), arena, |k| res_unit(match k {
+            K::Vec(v) => b.get_bucket(v),
+            K::Slice(s) => b.get_bucket(s),
+            K::Bytes(x) => b.get_bucket(x),
+            K::Str(s) => b.get_bucket(s),
+            K::String(s) => b.get_bucket(s),
+        })),
+        Step::DeleteBucket { name, .. } => with_key(name, via_of(&name.bytes()), arena, |k| match k {
+            K::Vec(v) => res_unit(b.delete_bucket(v)),
+            K::Slice(s) => res_unit(b.delete_bucket(s)),
+            K::Bytes(x) => res_unit(b.delete_bucket(x)),
+            K::Str(s) => res_unit(b.delete_bucket(s)),
+            K::String(s) => res_unit(b.delete_bucket(s)),
+        }),
         Step::NextInt { .. } => Obs::Int(b.next_int()),
         Step::Scan { extra_next, .. } => {
             let mut c = b.cursor();
@@ -1611,8 +1687,14 @@ fn exec_bucket<'b, 'tx, 'a: 'tx>(b: &Bucket<'b, 'tx>, step: &Step, arena: &'a Bu
             }
             Obs::List(v)
         }
-        Step::Seek { key, take, .. } => {
+        Step::Seek { key, take, warm, .. } => {
             let mut c = b.cursor();
+            // a cursor that has already been iterated must seek exactly like a fresh one
+            for _ in 0..*warm {
+                if c.next().is_none() {
+                    break;
+                }
+            }
             let found = c.seek(key.bytes());
             let current = c.current().map(|d| data_item(&d));
             let mut rest = Vec::new();
